@@ -1,0 +1,199 @@
+//! Headless driver of the interactive session (feature `verif-hooks`).
+//!
+//! Reads a script file, builds the real [`Tui`] per script, feeds the scripted
+//! key events through the real event handling, renders the real [`Interface`]
+//! into an in-memory buffer of the scripted size and prints one line of state
+//! after every step. A panic ends the script with a `PANIC` line.
+//!
+//! Script format, one item per line:
+//! `SCRIPT <id> <width> <height>` starts a session, `S <w> <h>` resizes,
+//! `K <key> <ctrl:0|1>` presses a key (`c<hex codepoint>`, `enter`, `tab`,
+//! `backtab`, `backspace`, `delete`, `left`, `right`, `up`, `down`, `home`,
+//! `end`, `esc`, `f1`), `FUEL <n>` sets the clock edge budget per step.
+use crossterm::event::{KeyCode, KeyEvent, KeyModifiers};
+use emulator_2a_lib::machine::{verif as libverif, StepMode};
+use tui::{buffer::Buffer, layout::Rect, widgets::StatefulWidget};
+
+use std::cell::RefCell;
+use std::panic::{self, AssertUnwindSafe};
+
+use super::{events, interface::Interface, Part, Tui};
+use crate::args::InteractiveArgs;
+
+thread_local! {
+    static LAST_PANIC: RefCell<String> = RefCell::new(String::new());
+}
+
+fn hex(s: &str) -> String {
+    s.bytes().map(|b| format!("{:02x}", b)).collect()
+}
+
+fn parse_key(tok: &str) -> Option<KeyCode> {
+    Some(match tok {
+        "enter" => KeyCode::Enter,
+        "tab" => KeyCode::Tab,
+        "backtab" => KeyCode::BackTab,
+        "backspace" => KeyCode::Backspace,
+        "delete" => KeyCode::Delete,
+        "left" => KeyCode::Left,
+        "right" => KeyCode::Right,
+        "up" => KeyCode::Up,
+        "down" => KeyCode::Down,
+        "home" => KeyCode::Home,
+        "end" => KeyCode::End,
+        "esc" => KeyCode::Esc,
+        "f1" => KeyCode::F(1),
+        "pageup" => KeyCode::PageUp,
+        "insert" => KeyCode::Insert,
+        t if t.starts_with('c') => KeyCode::Char(std::char::from_u32(u32::from_str_radix(&t[1..], 16).ok()?)?),
+        _ => return None,
+    })
+}
+
+struct Session {
+    tui: Tui,
+    width: u16,
+    height: u16,
+    id: String,
+    step: usize,
+    dead: bool,
+}
+
+impl Session {
+    fn report(&self, quit: bool) {
+        let (text, cursor, hist, hist_idx) = self.tui.input_field.verif_state();
+        let notif = self.tui.notification_state.current.clone();
+        println!(
+            "STEP {} {} quit={} text={} cursor={} hist={} hidx={} last={} notif={} auto={} part={} mode={} dump {}",
+            self.id,
+            self.step,
+            quit as u8,
+            hex(&text),
+            cursor,
+            hist,
+            hist_idx.map(|i| i as i64).unwrap_or(-1),
+            hex(&self.tui.input_field.last().unwrap_or_default()),
+            notif.map(|n| format!("1:{}", hex(&n))).unwrap_or_else(|| "0".into()),
+            self.tui.machine.auto_run_mode as u8,
+            match self.tui.machine.part {
+                Part::RegisterBlock => "register",
+                Part::Memory => "memory",
+            },
+            match self.tui.machine.machine.step_mode() {
+                StepMode::Real => "real",
+                StepMode::Assembly => "asm",
+            },
+            self.tui.machine.machine.verif_dump()
+        );
+    }
+}
+
+/// Run all scripts of the file. Returns the process exit code.
+pub fn run_script_file(path: &str) -> i32 {
+    let text = match std::fs::read_to_string(path) {
+        Ok(t) => t,
+        Err(e) => {
+            println!("DRIVER-ERROR cannot read {}: {}", path, e);
+            return 2;
+        }
+    };
+    panic::set_hook(Box::new(|info| {
+        let loc = info.location().map(|l| format!("{}:{}", l.file(), l.line())).unwrap_or_default();
+        let msg = if let Some(s) = info.payload().downcast_ref::<&str>() {
+            s.to_string()
+        } else if let Some(s) = info.payload().downcast_ref::<String>() {
+            s.clone()
+        } else {
+            "?".into()
+        };
+        LAST_PANIC.with(|p| *p.borrow_mut() = format!("loc={} msg={}", loc, msg.replace('\n', " ")));
+    }));
+    events::verif::set_headless(true);
+    let mut session: Option<Session> = None;
+    let mut fuel: u64 = 200_000;
+    for line in text.lines() {
+        let toks: Vec<&str> = line.split_whitespace().collect();
+        if toks.is_empty() {
+            continue;
+        }
+        match toks[0] {
+            "SCRIPT" if toks.len() >= 4 => {
+                let made = panic::catch_unwind(|| Tui::new(&InteractiveArgs::default()));
+                match made {
+                    Ok(Ok(tui)) => {
+                        session = Some(Session {
+                            tui,
+                            width: toks[2].parse().unwrap_or(80),
+                            height: toks[3].parse().unwrap_or(30),
+                            id: toks[1].to_string(),
+                            step: 0,
+                            dead: false,
+                        })
+                    }
+                    _ => {
+                        println!("PANIC {} 0 phase=new {}", toks[1], LAST_PANIC.with(|p| p.borrow().clone()));
+                        session = None;
+                    }
+                }
+            }
+            "FUEL" if toks.len() >= 2 => fuel = toks[1].parse().unwrap_or(fuel),
+            "S" if toks.len() >= 3 => {
+                if let Some(s) = session.as_mut() {
+                    s.width = toks[1].parse().unwrap_or(s.width);
+                    s.height = toks[2].parse().unwrap_or(s.height);
+                }
+            }
+            "K" if toks.len() >= 3 => {
+                let s = match session.as_mut() {
+                    Some(s) if !s.dead => s,
+                    _ => continue,
+                };
+                let code = match parse_key(toks[1]) {
+                    Some(c) => c,
+                    None => {
+                        println!("DRIVER-ERROR bad key {}", toks[1]);
+                        continue;
+                    }
+                };
+                let modifiers = if toks[2] == "1" { KeyModifiers::CONTROL } else { KeyModifiers::empty() };
+                s.step += 1;
+                let mut phase = "event";
+                let (w, h) = (s.width, s.height);
+                let res = panic::catch_unwind(AssertUnwindSafe(|| {
+                    libverif::set_fuel(Some(fuel));
+                    s.tui.maintain();
+                    events::verif::inject(KeyEvent { code, modifiers });
+                    let quit = s.tui.handle_event();
+                    phase = "draw";
+                    let area = Rect::new(0, 0, w, h);
+                    let mut buf = Buffer::empty(area);
+                    Interface.render(area, &mut buf, &mut s.tui);
+                    phase = "autorun";
+                    if s.tui.machine.auto_run_mode {
+                        for _ in 0..10 {
+                            s.tui.machine.trigger_key_clock();
+                        }
+                    }
+                    libverif::set_fuel(None);
+                    quit
+                }));
+                match res {
+                    Ok(quit) => {
+                        s.report(quit);
+                        if quit {
+                            s.dead = true;
+                        }
+                    }
+                    Err(_) => {
+                        libverif::set_fuel(None);
+                        println!("PANIC {} {} phase={} size={}x{} {}", s.id, s.step, phase, w, h, LAST_PANIC.with(|p| p.borrow().clone()));
+                        s.dead = true;
+                    }
+                }
+            }
+            _ => println!("DRIVER-ERROR bad line {:?}", line),
+        }
+    }
+    println!("DONE");
+    0
+}
